@@ -113,6 +113,8 @@ def strategy_(draw, tier):
         vals.append({"id": f"v{j}", "deps": deps, "read": pick(draw, READS), "form": pick(draw, FORMS),
                      "field": pick(draw, [None, None] + real), "discard": pick(draw, [None, None] + [[i] for i in range(n)]),
                      "where": where, "path_field": pick(draw, real)})
+        if split and where != "base" and vals[-1]["read"] != "direct" and chance(draw, 0.6):
+            vals[-1]["helper_in_base"] = True
         if where == "base":
             v = vals[-1]
             if v["field"] is not None and v["field"] >= split:
@@ -202,6 +204,9 @@ def render(p) -> str:
             if v["where"] == "base":
                 vl, reads = vlines(v)
                 lines += helpers(v, reads) + vl
+            elif v.get("helper_in_base"):
+                # the validator is declared on C (or as a function), the helper / property it reads the fields through is inherited
+                lines += helpers(v, vlines(v)[1])
         lines.append("")
     if p.get("cls_aliaser"):
         lines.append(f"@alias({p['cls_aliaser']})")
@@ -215,7 +220,8 @@ def render(p) -> str:
     for v in vals:
         if v["where"] in ("class", "func"):
             vl, reads = vlines(v)
-            lines += helpers(v, reads)
+            if not (split and v.get("helper_in_base")):
+                lines += helpers(v, reads)
             if v["where"] == "class":
                 lines += vl
     lines.append("")
